@@ -474,15 +474,19 @@ package wallet
 // Every loop that turns a part of the block into events looks at every element of its range: none
 // of them is left by a break (a block may pay the wallet through several miner payouts, several
 // claims, several contract outputs; each is one event).
-//@   loop "range block.Transactions" exhaustive
-//@   loop "range block.V2Transactions()" exhaustive
-//@   loop "range txn.SiafundInputs" #1 exhaustive
-//@   loop "range txn.SiafundInputs" #2 exhaustive
-//@   loop "range cau.FileContractElementDiffs()" exhaustive
-//@   loop "range fce.FileContract.ValidProofOutputs" exhaustive
-//@   loop "range fce.FileContract.MissedProofOutputs" exhaustive
-//@   loop "range cau.V2FileContractElementDiffs()" exhaustive
-//@   loop "range block.MinerPayouts" exhaustive
+// (keyed by position among the range loops of the function, so that editing a ranged expression
+// neither detaches the contract nor hides what else the edit breaks: #2 block.Transactions,
+// #3 / #6 siafund inputs, #5 v2 transactions, #7 v1 contract diffs, #8 / #9 valid / missed
+// payouts, #10 v2 contract diffs, #11 miner payouts)
+//@   loop "range *" #2 exhaustive
+//@   loop "range *" #3 exhaustive
+//@   loop "range *" #5 exhaustive
+//@   loop "range *" #6 exhaustive
+//@   loop "range *" #7 exhaustive
+//@   loop "range *" #8 exhaustive
+//@   loop "range *" #9 exhaustive
+//@   loop "range *" #10 exhaustive
+//@   loop "range *" #11 exhaustive
 //
 // Applying a block: first the proofs of the stored elements are moved to the new state, then
 // the store gets the block's index and timestamp, the events computed from this very update,
